@@ -90,6 +90,17 @@ func (n *reNode) Close(ctx context.Context) error {
 
 type plainPayload struct{ N int }
 
+// hollowNode is a NodeUnwrapper that wraps nothing (Unwrap returns nil) and is no Closer: a
+// decorator whose inner node is optional. Closing it means: nothing to close.
+type hollowNode struct{}
+
+func (hollowNode) Type() el.NodeType { return el.NodeTypeFilter }
+func (hollowNode) Reopen() error     { return nil }
+func (hollowNode) Unwrap() el.Node   { return nil }
+func (hollowNode) Process(ctx context.Context, e *el.Event) (*el.Event, error) {
+	return e, nil
+}
+
 // loopPayload is a user-defined Gateable whose composite is Gateable again and carries the
 // event type of the pipeline the filter sits in: emitted through the Broker it would come
 // straight back to the same filter.
@@ -190,6 +201,11 @@ func runReentrant(rc *RunCtx) {
 		broker.RegisterNode("f", mk("f", el.NodeTypeFormatter))
 	}
 	broker.RegisterNode("s", mk("s", el.NodeTypeSink))
+	if tp.Choose(4, "hollow-wrapper") == 0 {
+		broker.RegisterNode("hollow", hollowNode{})
+		ids = append(ids, "hollow")
+		desc.Reentry = append(desc.Reentry, "a NodeUnwrapper whose Unwrap returns nil is part of the pipeline")
+	}
 	ids = append(ids, "re", "f", "s")
 	if err := broker.RegisterPipeline(el.Pipeline{PipelineID: "p0", EventType: "ta", NodeIDs: ids}); err != nil {
 		rc.Failf("C12.setup", "", "cannot register pipeline: %v", err)
